@@ -110,14 +110,28 @@ Theorem C17_in : forall c a set, set <> [] -> Forall nul_free set ->
 Proof. exact T_in_iff. Qed.
 Print Assumptions C17_in.
 
-(* ---- @range: the arithmetic progression start, start+incr, ... strictly before stop ---- *)
+(* ---- @range.  Where no int64 overflow is possible ([range_no_wrap start stop incr]: all three are int64
+        and stop + incr - 1 <= MaxInt64 for a positive increment, MinInt64 <= stop + incr + 1 for a negative
+        one) the result is <VALUE> for a zero increment, a wrong direction or more than maxRangeElements
+        elements, and otherwise the arithmetic progression start, start+incr, ... strictly before stop.
+        Outside that guard the model follows the wrapping int64 loop of the code (C17_range_any): the
+        model needs no assumption, only this theorem has the guard. ---- *)
 Theorem C17_range : forall c s e i start stop incr,
   atoi (eval s c) = Some start -> atoi (eval e c) = Some stop -> atoi (eval i c) = Some incr ->
+  range_no_wrap start stop incr = true ->
   eval (ARange s e i) c =
   if ((incr =? 0) || (incr >? 0) && (start >? stop) || (incr <? 0) && (start <? stop))%Z then ErrorValue
+  else if (range_countZ start stop incr >? MaxRangeElements)%Z then ErrorValue
   else join0 (map itoa (progression (range_count start stop incr) start incr)).
 Proof. exact T_range. Qed.
 Print Assumptions C17_range.
+(* in general: the loop of kfArrayRange (int64 addition, element cap) always ends and its value is the result *)
+Theorem C17_range_any : forall c s e i start stop incr,
+  atoi (eval s c) = Some start -> atoi (eval e c) = Some stop -> atoi (eval i c) = Some incr ->
+  range_valid start stop incr ->
+  exists r, range_run MaxRangeElements start stop incr = Some r /\ eval (ARange s e i) c = r.
+Proof. exact T_range_any. Qed.
+Print Assumptions C17_range_any.
 Theorem C17_range_bad_number : forall c s e i,
   atoi (eval s c) = None \/ atoi (eval e c) = None \/ atoi (eval i c) = None ->
   eval (ARange s e i) c = ErrorNum.
@@ -128,13 +142,18 @@ Theorem C17_progression : forall n start incr k, k < n ->
 Proof. intros. split; [apply progression_length|now apply progression_nth]. Qed.
 Print Assumptions C17_progression.
 
-(* ---- @for: iterate while truthy, {0} value {1} index, at most MAX_ITERATIONS elements ---- *)
+(* ---- @for: iterate while truthy, {0} value {1} index; the list when the condition turns falsy within
+        MAX_ITERATIONS rounds and the joined output stays within MAX_OUTPUT_BYTES; the marker when the
+        condition is still truthy after MAX_ITERATIONS + 1 rounds, or when the output written while it
+        is truthy exceeds MAX_OUTPUT_BYTES ---- *)
 Theorem C17_for : forall c s x i n, n <= iter_cap ->
   let cond := fun v k => eval x (subctx c v k) in
   let incr := fun v k => eval i (subctx c v k) in
+  let vals := map (for_val incr (eval s c) dec_zero) (seq 0 n) in
   (forall k, k < n -> for_cond cond incr (eval s c) dec_zero k = true) ->
   for_cond cond incr (eval s c) dec_zero n = false ->
-  eval (AFor s x i) c = join0 (map (for_val incr (eval s c) dec_zero) (seq 0 n)).
+  (Z.of_nat (length (join0 vals)) <= ForMaxOutputBytes)%Z ->
+  eval (AFor s x i) c = join0 vals.
 Proof. exact T_for. Qed.
 Print Assumptions C17_for.
 Theorem C17_for_inf : forall c s x i,
@@ -144,6 +163,15 @@ Theorem C17_for_inf : forall c s x i,
   eval (AFor s x i) c = ForInfMarker.
 Proof. exact T_for_inf. Qed.
 Print Assumptions C17_for_inf.
+Theorem C17_for_inf_bytes : forall c s x i m,
+  let cond := fun v k => eval x (subctx c v k) in
+  let incr := fun v k => eval i (subctx c v k) in
+  let vals := map (for_val incr (eval s c) dec_zero) (seq 0 (S m)) in
+  (forall k, k <= m -> for_cond cond incr (eval s c) dec_zero k = true) ->
+  (Z.of_nat (length (join0 vals)) > ForMaxOutputBytes)%Z ->
+  eval (AFor s x i) c = ForInfMarker.
+Proof. exact T_for_inf_bytes. Qed.
+Print Assumptions C17_for_inf_bytes.
 
 (* ---- {@ ..} / {$ ..} ---- *)
 Theorem C17_concat : forall c b es, es <> [] ->
@@ -180,17 +208,20 @@ Proof. exact W_slice. Qed.
 Print Assumptions C17_wf_slice.
 Theorem C17_wf_range : forall c s e i start stop incr,
   atoi (eval s c) = Some start -> atoi (eval e c) = Some stop -> atoi (eval i c) = Some incr ->
-  in_range start stop incr = true ->
+  range_no_wrap start stop incr = true -> in_range start stop incr = true ->
+  (range_countZ start stop incr <= MaxRangeElements)%Z ->
   split0 (eval (ARange s e i) c) = map itoa (progression (range_count start stop incr) start incr).
 Proof. exact W_range. Qed.
 Print Assumptions C17_wf_range.
 Theorem C17_wf_for : forall c s x i n, 1 <= n <= iter_cap ->
   let cond := fun v k => eval x (subctx c v k) in
   let incr := fun v k => eval i (subctx c v k) in
+  let vals := map (for_val incr (eval s c) dec_zero) (seq 0 n) in
   (forall k, k < n -> for_cond cond incr (eval s c) dec_zero k = true) ->
   for_cond cond incr (eval s c) dec_zero n = false ->
+  (Z.of_nat (length (join0 vals)) <= ForMaxOutputBytes)%Z ->
   nul_free (eval s c) -> nul_safe i = true -> keys_nf c ->
-  split0 (eval (AFor s x i) c) = map (for_val incr (eval s c) dec_zero) (seq 0 n).
+  split0 (eval (AFor s x i) c) = vals.
 Proof. exact W_for. Qed.
 Print Assumptions C17_wf_for.
 Theorem C17_nul_safe : forall e c, nul_safe e = true -> ctx_nf c -> nul_free (eval e c).
@@ -212,7 +243,7 @@ Print Assumptions C17_check_sound.
 
 (* ---- translator obligations: the constants the model takes from the source ---- *)
 Theorem C17_consts :
-  ArraySeparator = [NUL] /\ (0 < MaxIterations)%Z /\
+  ArraySeparator = [NUL] /\ (0 < MaxIterations)%Z /\ (0 < MaxRangeElements)%Z /\ (0 < ForMaxOutputBytes)%Z /\
   Forall (fun m => nul_freeb m = true /\ truthy m = true) [TruthyVal; ErrorNum; ErrorValue; ErrorEmpty; ForInfMarker] /\
   FalsyVal = [] /\ truthy FalsyVal = false.
 Proof. vm_compute. repeat split; repeat constructor; reflexivity. Qed.
@@ -224,5 +255,35 @@ Example C17_example :
   split0 (eval (ASplit (Arg 0) (of_str "::"%string)) c) = [of_str "a"%string; of_str "b"%string; []; of_str "c"%string] /\
   eval (ASlice (ASplit (Arg 0) (of_str "::"%string)) (-10) 2) c = of_str "a"%string ++ [NUL] ++ of_str "b"%string /\
   eval (AFilter (ASplit (Arg 0) (of_str "::"%string)) (SEq (Arg 0) (Key (of_str "k"%string)))) c = of_str "b"%string /\
-  eval (AFor (Lit (of_str "0"%string)) (SNot (SEq (Arg 1) (Arg 5))) (SSumi (Arg 0) (Arg 1))) c = ForInfMarker.
+  eval (AFor (Lit (of_str "0"%string)) (SNot (SEq (Arg 1) (Arg 5))) (Cat [Arg 1; Key (of_str "k"%string)])) c = ForInfMarker.
+Proof. vm_compute. repeat split; reflexivity. Qed.
+
+(* both sides of the caps.  @range: exactly maxRangeElements elements are still a list, one more is <VALUE>
+   (branch of C17_range, by arithmetic; rendering a million numbers is not needed), and the loop itself
+   on cap + 1 elements; huge bounds with few elements; an increment that overflows int64 *)
+Example C17_range_cap_sides :
+  let cap := MaxRangeElements in
+  (range_countZ 0 cap 1 >? cap)%Z = false /\
+  (range_countZ 0 (cap + 1) 1 >? cap)%Z = true /\
+  range_no_wrap 0 (cap + 1) 1 = true /\
+  eval (ARange (Lit (of_str "0"%string)) (Lit (itoa (cap + 1))) (Lit (of_str "1"%string))) (mkctx [] []) = ErrorValue /\
+  eval (ARange (Lit (of_str "0"%string)) (Lit (of_str "7"%string)) (Lit (of_str "3"%string))) (mkctx [] []) = of_str "0"%string ++ [NUL] ++ of_str "3"%string ++ [NUL] ++ of_str "6"%string.
+Proof. vm_compute. repeat split; reflexivity. Qed.
+Example C17_range_huge :
+  eval (ARange (Lit (of_str "9223372036854775000"%string)) (Lit (of_str "9223372036854775500"%string)) (Lit (of_str "300"%string))) (mkctx [] [])
+    = of_str "9223372036854775000"%string ++ [NUL] ++ of_str "9223372036854775300"%string /\
+  range_no_wrap 9223372036854775000 9223372036854775500 300 = true /\
+  (* the increment overflows after the only element: the wrapped counter stays below stop until the cap *)
+  range_no_wrap 9223372036854775806 9223372036854775807 5 = false /\
+  eval (ARange (Lit (of_str "9223372036854775806"%string)) (Lit (of_str "9223372036854775807"%string)) (Lit (of_str "5"%string))) (mkctx [] []) = ErrorValue.
+Proof. vm_compute. repeat split; reflexivity. Qed.
+(* @for: with a 70-byte value the output bound is exceeded after MAX_OUTPUT_BYTES / 71 + 1 rounds; when that is
+   fewer than MAX_ITERATIONS (pinned tree: 945196 < 1000000) the marker is due to the output bound alone; 3 rounds are a list *)
+Example C17_for_bytes_sides :
+  let v := Lit (of_str "0123456789012345678901234567890123456789012345678901234567890123456789"%string) in
+  let rounds := (ForMaxOutputBytes / 71 + 2)%Z in
+  (if (rounds <=? MaxIterations)%Z
+   then eval (AFor v (SNot (SEq (Arg 1) (Lit (itoa rounds)))) (Arg 0)) (mkctx [] []) = ForInfMarker
+   else True) /\
+  eval (ALen (AFor v (SNot (SEq (Arg 1) (Lit (of_str "3"%string)))) (Arg 0))) (mkctx [] []) = of_str "3"%string.
 Proof. vm_compute. repeat split; reflexivity. Qed.
